@@ -45,6 +45,8 @@ func (f *Formatter) formatExpression(expr ast.Expression) *ChunkBuffer {
 		buf.Append(f.formatGroupedExpression(t))
 	case *ast.InfixExpression:
 		buf.Append(f.formatInfixExpression(t))
+	case *ast.PostfixExpression:
+		buf.Append(f.formatPostfixExpression(t))
 	}
 
 	// trailing comment
@@ -105,6 +107,19 @@ func (f *Formatter) formatPrefixExpression(expr *ast.PrefixExpression) *ChunkBuf
 
 	buf.Write(expr.Operator, Prefix)
 	buf.Append(f.formatExpression(expr.Right))
+
+	return buf
+}
+
+// Format postfix expression like "10%": the operator sticks to its operand
+func (f *Formatter) formatPostfixExpression(expr *ast.PostfixExpression) *ChunkBuffer {
+	buf := f.formatExpression(expr.Left)
+
+	if n := len(buf.chunks); n > 0 && buf.chunks[n-1].Type != Comment {
+		buf.chunks[n-1].buffer += expr.Operator
+	} else {
+		buf.Write(expr.Operator, Token)
+	}
 
 	return buf
 }
